@@ -92,7 +92,7 @@ impl Check for C11 {
     }
 
     fn cases(&self, tier: Tier) -> u64 {
-        tier.pick(6_000, 200_000)
+        tier.pick(24_000, 200_000)
     }
 
     fn max_shrink_iters(&self) -> u32 {
